@@ -776,6 +776,9 @@ def run_c08(rep, rng, tier):
                 bad_name = holder["name"]
             elif kind == "undeclared":
                 bad_name = "Nowhere" + str(rng.randint(0, 99))
+                if rng.random() < 0.2:
+                    # a name that begins like a built-in integer type but is none (three digits and more): a user type name
+                    bad_name = rng.choice(["u100", "i420", "u128", "i256", "u640"])
                 earlier_types = [dc["name"] for dc in d.decls[:d.decls.index(holder)] if dc["k"] in ("struct", "enum")]
                 taken = {dc["name"] for dc in d.decls if "name" in dc}
                 if earlier_types and rng.random() < 0.6:
@@ -830,6 +833,13 @@ def run_c08(rep, rng, tier):
             if bad_name:
                 holder["fields"].insert(rng.randint(0, len(holder["fields"])),
                                         {"name": "ref", "id": 77, "type": wrap(("named", bad_name)), "params": []})
+        if kind == "valid" and structs and rng.random() < 0.15:
+            # ... and the same kind of name properly declared (as a struct or an enum) and referred to: tagged with its kind
+            nm = rng.choice(["u100", "i420", "u128", "i256"])
+            if not any(dc.get("name") == nm for dc in d.decls):
+                d.decls.insert(0, {"k": "enum", "name": nm, "items": [("IA", 0), ("IB", 2)]} if rng.random() < 0.5 else
+                               {"k": "struct", "name": nm, "fields": [{"name": "iz", "id": 0, "type": ("u", 8), "params": []}]})
+                structs[-1]["fields"].append({"name": "intlike", "id": 78, "type": wrap(("named", nm)), "params": []})
         text = render(rng, desc_toks(rng, d), rng.choice(["canon", "wild"]))
         job = {"files": {"main.fcp": text}, "root": "main.fcp", "from_string": rng.random() < 0.5}
         late = kind == "latemod" and bad_name is not None
